@@ -135,6 +135,10 @@ def check_case(ctx, case):
             m = c[:j] + rng.choice("!@#$%^&* _+=\\é\n\t\x00:;,") + c[j + 1:]
         elif r < 0.6:
             m = c + rng.choice(["\n", " ", "\r\n", "\t", "\x00", "\n\n"])
+        elif r < 0.65:
+            # the string as it is DISPLAYED or pasted: inside quotes, brackets, with a terminator
+            h, t = rng.choice([('"', '"'), ("'", "'"), ("[", "]"), ("{", "}"), ("(", ")"), ("<", ">"), ("", ";"), ('"', '";'), ("\\\"", "\\\"")])
+            m = h + c + t
         elif r < 0.7:
             m = rng.choice([" ", "\n", "x", "$9$"]) + c
         elif r < 0.8:
